@@ -69,11 +69,20 @@ def check_run(ctx, case, n, op, w, out, ood, need, record):
                     if ("wr_start", y) not in pos:
                         ctx.violation(case, tag + f"stored node {y} is downstream of rebuilt {x} but was not rebuilt in the same run")
                     before(("wr_end", x), ("wr_start", y), f"downstream stored node {y} must be written after upstream {x}")
-        if nodes[x]["k"] == "src" and nodes[x]["deps"] and x in ood and ("rd_start", x) in pos:
+        if specs.src_kind(nodes[x]) == "dep" and x in ood and ("rd_start", x) in pos:
             wtr = nodes[x]["deps"][0]["n"]
             if ("end", wtr) not in pos:
                 ctx.violation(case, tag + f"out-of-date dependent source {x} was read but its writer {wtr} did not run")
             before(("end", wtr), ("rd_start", x), f"out-of-date dependent source {x} must be read after its writer {wtr}")
+        if nodes[x]["k"] == "src" and x in ood and ("rd_start", x) in pos:
+            # every node the out-of-date source depends on (writer, aliased stored node, extra dependencies)
+            for p in set(specs.dep_preds(nodes[x])):
+                if p in need["writes"]:
+                    before(("wr_end", p), ("rd_start", x),
+                           f"out-of-date source {x} depends on rebuilt stored node {p} and must be read after its write")
+                elif p not in ent and nodes[p]["k"] == "call" and p in need["exec"]:
+                    before(("end", p), ("rd_start", x),
+                           f"out-of-date source {x} depends on call {p} and must be read after it ended")
     # values
     ref = refmodel.Ref(w, registry=True)
     for i, (args, kwitems) in w.received.items():
@@ -92,7 +101,7 @@ def check_run(ctx, case, n, op, w, out, ood, need, record):
         ctx.case({"case": case, "run": n}, nt,
                  [f"mode:{op['sched'].get('mode')}", "rebuilt" if rebuilt else "nothing_rebuilt",
                   "rebuilt_with_consumer" if consumers_seen else "no_consumer",
-                  "stale_dep_source" if any(nodes[x]["k"] == "src" and nodes[x]["deps"] and x in ood for x in ent) else "no_stale_dep_source"])
+                  "stale_dep_source" if any(nodes[x]["k"] == "src" and specs.dep_preds(nodes[x]) and x in ood for x in ent) else "no_stale_dep_source"])
 
 
 def check_case(ctx, case, record=True):
@@ -123,7 +132,7 @@ def check_case(ctx, case, record=True):
 def run_shard(ctx):
     max_nodes, max_ops = (8, 4) if ctx.tier == "quick" else (12, 7)
 
-    @given(regcommon.reg_cases(max_nodes=max_nodes, max_ops=max_ops, det_share=60, disturb_last=True, faults=False))
+    @given(regcommon.reg_cases(max_nodes=max_nodes, max_ops=max_ops, det_share=60, disturb_last=True, faults=False, xdeps=True, alias=True))
     def test(case):
         check_case(ctx, case)
 
